@@ -341,6 +341,19 @@ def twin_path(prog, res, rule: str) -> int:
                 # a scalar reduction (nansum, sum, mean) of the VALUE may legitimately scale the samples (normalisation)
                 raw = atoms_of(poly(S, None, lambda t: t))
                 mixed = sorted(t[-40:] for t in raw if "(" not in t and re.search(r"\.data$", t))
+                if not mixed:
+                    # call-shaped samples (estimator(**counts)): look into the arguments, outside scalar reductions / fits
+                    OPAQUE = ("nansum", "sum", "mean", "nanmean", "median", "curve_fit")
+
+                    def value_reads(e):
+                        if isinstance(e, ast.Call) and (dotted(e.func) or unparse(e.func)).split(".")[-1] in OPAQUE:
+                            return
+                        if isinstance(e, ast.Attribute) and e.attr == "data" and isinstance(e.ctx, ast.Load):
+                            yield unparse(e)[-40:]
+                        for ch in ast.iter_child_nodes(e):
+                            yield from value_reads(ch)
+
+                    mixed = sorted(set(value_reads(S)))
                 d, s_ = poly(D, None, lambda t: t), poly(S, None, _twin_text)
                 if d.equals(s_) and not mixed:
                     continue
